@@ -182,6 +182,12 @@ ASM_RE = re.compile(r"\b(asm|__asm__)\b")
 LINEDIR_RE = re.compile(r"(?m)^[ \t]*#[ \t]*(line\b|\d)")
 
 
+def nlines_of(b):
+    """lines(file): the compiler supplies a missing final newline (a non-empty source file shall end in one, 5.1.1.2p2),
+    and the position after the final newline - where the EOF token sits - counts as a line"""
+    return b.count(b"\n") + 1 + (1 if b and not b.endswith(b"\n") else 0)
+
+
 def worker_main(jobfile):
     """`python3 c13.py --worker jobs.json` under vt.run_limited: for every job write the input, run the front end
     directly (wait status visible) under a 5 s CPU / 30 s wall limit, then `as` on the output if it exited 0."""
@@ -231,12 +237,12 @@ def worker_main(jobfile):
             hasloc, fileok, line, nlines = m is not None, False, 0, 0
             if m:
                 line = min(int(m.group(2)), 1 << 30)
-                lf = m.group(1)
+                lf = os.path.join(d, m.group(1))          # the front end ran in d; absolute names are unaffected
                 if os.path.isfile(lf):
                     fileok = True
-                    nlines = open(lf, "rb").read().count(b"\n") + 1
+                    nlines = nlines_of(open(lf, "rb").read())
             if not nlines:
-                nlines = (j["text"].count("\n") if "text" in j else open(f, "rb").read().count(b"\n")) + 1
+                nlines = nlines_of(j["text"].encode() if "text" in j else open(f, "rb").read())
             if hasloc and "text" in j and LINEDIR_RE.search(j["text"]):
                 nlines = max(nlines, line)      # a #line directive is in force: the line is a presumed line (C18 judges those)
             msg = ""
@@ -364,7 +370,13 @@ def gdb_site(ctx, tree, x, hang=False):
         cmd = ["gdb", "-batch", "-nx", "-ex", "run", "-ex", "bt 40", "--args"] + args
     p = vt.run_limited(cmd, timeout=90, mem_gb=8, cwd=d)
     txt = (p.stdout or "") + (p.stderr or "")
-    return site_of(frames_of(txt, tree_files)), txt[-1500:]
+    fr = frames_of(txt, tree_files)
+    if hang:
+        # where a hang is interrupted is arbitrary; the phase cc1() was in (the frame that called down from cc1) is not
+        names = [fn for fn, f in fr]
+        if "cc1" in names and names.index("cc1") > 0:
+            return "phase:" + names[names.index("cc1") - 1], txt[-1500:]
+    return site_of(fr), txt[-1500:]
 
 
 def enclosing_function(tree, fname, line):
@@ -554,7 +566,7 @@ def run(ctx):
     if errors:
         raise errors[0]
     ctx.assumptions += [
-        "lines(file) counts the position after the final newline (the EOF token's line) as a line",
+        "lines(file) counts the position after the final newline (the EOF token's line) as a line; a missing final newline is supplied first, as the compiler does",
         "the time limit is 5 s of CPU time (RLIMIT_CPU) and 30 s wall; output beyond 64 MB counts as a hang",
         "when the input contains a #line directive the reported line is a presumed line and only its presence is judged (C18 judges presumed positions)",
         "for edited inputs that contain an asm statement the assembler's verdict is not judged (the asm text is the user's)",
